@@ -198,6 +198,26 @@ func timerRace() explore.Scenario {
 	}
 }
 
+// lenRace: len(ch) is a visible read: both values must be seen.
+func lenRace() explore.Scenario {
+	return explore.Scenario{
+		Name: "selftest/lenrace", Mode: "S1",
+		New: func() explore.Instance {
+			out := ""
+			return explore.Instance{
+				Run: func() {
+					ch := make(chan int, 3)
+					fin := make(chan bool, 2)
+					go func() { ch <- 1; ch <- 2; fin <- true }()
+					out = fmt.Sprintf("%d/%d", len(ch), cap(ch))
+					<-fin
+				},
+				Outcome: func() string { return out },
+			}
+		},
+	}
+}
+
 func outcomes(st *explore.Stats) string {
 	var ks []string
 	for k := range st.Outcomes {
@@ -254,7 +274,7 @@ func extra(tier string, seed int64) *runner.ExtraResult {
 		res.Distinct += 2
 	}
 	// reductions do not change the set of terminal outcomes; S2 with a large bound sees what S1 sees
-	for _, sc := range []explore.Scenario{indep(2, 2), lostUpdate(false), dropped(false), timerRace()} {
+	for _, sc := range []explore.Scenario{indep(2, 2), lostUpdate(false), dropped(false), timerRace(), lenRace()} {
 		a := run(sc, "S1", 0)
 		vs.NoEager = true
 		b := run(sc, "S1", 0)
@@ -268,6 +288,9 @@ func extra(tier string, seed int64) *runner.ExtraResult {
 		}
 		res.Distinct++
 		res.Samples = append(res.Samples, fmt.Sprintf("%s: outcomes {%s}; states S1=%d, without eager rules=%d", sc.Name, outcomes(a), a.States, b.States))
+	}
+	if o := outcomes(run(lenRace(), "S1", 0)); o != "0/3,1/3,2/3" {
+		fail("len race: expected the three lengths, got %s", o)
 	}
 	if o := outcomes(run(timerRace(), "S1", 0)); o != "msg,timer" {
 		fail("timer race: expected both outcomes, got %s", o)
